@@ -44,6 +44,7 @@ inductive Res
   | okB (b : Bool)      -- a B-tree call that returned (b, nil)
   | noHandle            -- the caller holds no B-tree handle, so the call cannot be made
   | err (e : Err)
+  | panic               -- the call does not return: the goroutine panics (failing variants only, see `phase2TxF`)
 deriving DecidableEq, Repr
 
 def Res.isOk : Res → Bool
@@ -297,5 +298,206 @@ inductive Seen | absent | present (count : Int)
 deriving DecidableEq, Repr
 
 def seen (s : St) : Seen := if s.dExists then .present s.dCount else .absent
+
+
+/-! # Failing variants of every call
+
+Every call above was written for backends that answer. Below, the same calls when a backend call under them
+**fails**. What the lifecycle code depends on is not *which* backend call failed but *which piece of internal work
+returned an error* to the lifecycle method; that is what `Fx` says:
+
+* `work`  — the call's own work returns an error: a writer's `phase1Commit`, a reader's
+  `commitForReaderTransaction`, `phase2Commit` (for `Phase2Commit`), `StoreRepository.Get` / `log(createStore)` /
+  `StoreRepository.Add` under `NewBtree`, `StoreRepository.Get` under `OpenBtree`, the B-tree call under the
+  wrapper (a node or value fetch), `registry.Close` under `Close`;
+* `work2` — `Commit` only: `phase2Commit` returns an error (after a phase 1 that went through);
+* `undo`  — the internal undo `Transaction.rollback(ctx, true)`, if the call reaches it, returns an error
+  (a created store whose `StoreRepository.Remove` fails, a failing registry / blob / priority-log call of the undo);
+* `quiet` — a backend call failed but the code swallows its error (`removeLogs` inside the undo, `Close` inside
+  `Rollback`/`Phase2Commit`, the cleanup after the registry flip): the call goes on as if nothing happened.
+
+`Begin` has no failing variant: `onIdle` returns at once (no store can be attached before `Begin`) and returns nothing.
+
+The undo never stops at an error (`lastErr`), so the lifecycle fields move exactly as without the failure. What a
+failed piece of work and the undo after it leave **on disk**, and which write calls they issued, depends on where
+inside them the backend failed: that is the commit protocol's subject (Model P), not transcribed here. A call in
+which a failure took effect reports `hit = true`; its write calls are *not predicted* (`stepF` answers `none`) and
+what is on disk is not predicted from then on (`FSt.blur`). Everything else — result class, `phaseDone`, `committed`,
+and every later call — is predicted exactly.
+-/
+
+structure Fx where
+  work : Bool
+  work2 : Bool
+  undo : Bool
+  quiet : Bool
+deriving DecidableEq, Repr
+
+def Fx.none : Fx := ⟨false, false, false, false⟩
+
+/-- result of one call with failures: new state, result, write calls of the parts that did not fail,
+whether a failure took effect -/
+structure R where
+  st : St
+  res : Res
+  w : List W
+  hit : Bool
+
+def R.ofOut (r : St × Out) : R := ⟨r.1, r.2.1, r.2.2, false⟩
+
+/-! ## `Transaction.Rollback` whose undo may fail: `t.phaseDone = 2` comes BEFORE `t.rollback(ctx, true)` -/
+def rollbackTxF (s : St) (fx : Fx) : R :=
+  if s.pd = 2 then R.ofOut (rollbackTx s)
+  else if !s.hasBegun then R.ofOut (rollbackTx s)
+  else
+    let rb := rollbackCore { s with pd := 2 }
+    if fx.undo then ⟨rb.1, .err .rollbackFailed, rb.2, true⟩      -- "rollback failed, details: …"
+    else ⟨rb.1, .ok, rb.2, false⟩
+
+/-- a caller that reports `orig` when the `Rollback` it called went through and "…, rollback failed: …" otherwise -/
+def afterRollback (rb : R) (orig : Err) (w : List W) (hit : Bool) : R :=
+  ⟨rb.st, if rb.res.isOk then .err orig else .err .rollbackFailed, w ++ rb.w, hit || rb.hit⟩
+
+/-- a writer's `phase1Commit` reaches backend work (it returns at once without tracked items) -/
+def p1Works (s : St) : Bool :=
+  match s.backend with
+  | some b => b.tracked
+  | none => false
+
+/-- `commitForReaderTransaction` reaches backend work -/
+def readerWorks (s : St) : Bool :=
+  match s.backend with
+  | some b => b.tracked
+  | none => false
+
+/-! ## `Transaction.Phase1Commit` -/
+def phase1TxF (s : St) (fx : Fx) : R :=
+  if !s.hasBegun then ⟨s, .err .notBegun, [], false⟩
+  else
+    match s.mode with
+    | .noCheck => R.ofOut (phase1Tx s)
+    | .forReading =>
+      -- `return t.commitForReaderTransaction(ctx)`: the error goes to the caller, phaseDone stays 1, no rollback
+      if fx.work && readerWorks s then ⟨{ s with pd := 1 }, .err .other, [], true⟩
+      else R.ofOut (phase1Tx s)
+    | .forWriting =>
+      if fx.work && p1Works s then
+        -- `t.phaseDone = 2; rerr := t.rollback(ctx, true)`; an error is returned whether or not the undo failed
+        let rb := rollbackCore { s with pd := 2 }
+        ⟨rb.1, .err .other, rb.2, true⟩
+      else
+        -- a phase 1 that fails on its own (re-entry, see `phase1Writer`) runs the same undo: its failure takes effect there
+        let r := phase1Tx s
+        ⟨r.1, r.2.1, r.2.2, fx.undo && !r.2.1.isOk⟩
+
+/-! ## `Transaction.Phase2Commit`: `t.phaseDone = 2` comes before any work -/
+def phase2TxF (s : St) (work : Bool) : R :=
+  if !s.hasBegun then ⟨s, .err .notBegun, [], false⟩
+  else if s.pd = 0 then ⟨s, .err .noPhase1, [], false⟩
+  else
+    match s.mode with
+    | .forWriting =>
+      if work then
+        -- phase2Commit failed (log(finalizeCommit) or the registry flip): priority rollback / rollback, error either way,
+        -- `committed` stays false. `log` has set committedState = finalizeCommit before its backend call failed, so
+        -- `rollback` enters `committedState > commitAddedNodes` and evaluates `t.btreesBackend[0]`: with no store
+        -- attached to the transaction that is an index-out-of-range PANIC (defect, finding C14-F3; `defer t.Close()` runs)
+        match s.backend with
+        | none => ⟨{ s with pd := 2, logState := 11 }, .panic, [], true⟩
+        | some _ =>
+          let rb := rollbackCore { s with pd := 2 }
+          ⟨rb.1, .err .other, rb.2, true⟩
+      else R.ofOut (phase2Tx s)
+    | _ => R.ofOut (phase2Tx s)       -- non-writers: no backend work
+
+/-! ## `SinglePhaseTransaction.Commit` -/
+def commitTxF (s : St) (fx : Fx) : R :=
+  let p1 := phase1TxF s fx
+  if p1.res.isOk then
+    let p2 := phase2TxF p1.st fx.work2
+    if p2.res.isOk then ⟨p2.st, .ok, p1.w ++ p2.w, p1.hit || p2.hit⟩
+    else
+      let rb := rollbackTxF p2.st fx
+      ⟨rb.st, if rb.res.isOk then p2.res else .err .rollbackFailed, p1.w ++ p2.w ++ rb.w, p1.hit || p2.hit || rb.hit⟩
+  else
+    let rb := rollbackTxF p1.st fx
+    ⟨rb.st, if rb.res.isOk then p1.res else .err .rollbackFailed, p1.w ++ rb.w, p1.hit || rb.hit⟩
+
+/-! ## `common.NewBtree`: every failing backend call under it ends in `trans.Rollback` -/
+def newBtreeF (s : St) (fx : Fx) : R :=
+  if !s.hasBegun then ⟨s, .err .notBegun, [], false⟩
+  else if fx.work then afterRollback (rollbackTxF s fx) .other [] true
+  else R.ofOut (newBtree s)
+
+/-! ## `common.OpenBtree` -/
+def openBtreeF (s : St) (fx : Fx) : R :=
+  if !s.hasBegun then ⟨s, .err .notBegun, [], false⟩
+  else
+    match s.backend with
+    | some _ => R.ofOut (openBtree s)               -- already open in this transaction: no backend call
+    | none =>
+      if fx.work then afterRollback (rollbackTxF s fx) .other [] true       -- StoreRepository.Get failed
+      else if !s.dExists then afterRollback (rollbackTxF s fx) .noStore [] false
+      else R.ofOut (openBtree s)
+
+/-! ## `btreeWithTransaction`: a failing delegate ends in `transaction.Rollback(ctx, err)` -/
+def storeOpF (s : St) (k : Kind) (fx : Fx) : R :=
+  if !s.handle then ⟨s, .noHandle, [], false⟩
+  else if !s.hasBegun then R.ofOut (storeOp s k)       -- no backend is reached
+  else if k.mutating && s.mode != .forWriting then afterRollback (rollbackTxF s fx) .readOnly [] false
+  else
+    match s.backend with
+    | none => ⟨s, .noHandle, [], false⟩
+    | some b =>
+      -- a failing node fetch is returned by the B-tree, except in `getRootNode` of a store whose count is 0:
+      -- `root, _ := btree.getNode(…)` drops the error and goes on as if there were no root node
+      if fx.work && b.localCount != 0 then afterRollback (rollbackTxF s fx) .other [] true
+      else
+        let r := storeOp s k
+        ⟨r.1, r.2.1, r.2.2, fx.work⟩
+
+def stepCoreF (s : St) (op : Op) (fx : Fx) : R :=
+  match op with
+  | .begin => R.ofOut (beginTx s)
+  | .phase1 => phase1TxF s fx
+  | .phase2 => phase2TxF s fx.work
+  | .commit => commitTxF s fx
+  | .rollback => rollbackTxF s fx
+  | .close => if fx.work then ⟨s, .err .other, [], false⟩ else ⟨s, .ok, [], false⟩   -- registry file handles only: nothing becomes unpredicted
+  | .newBtree => newBtreeF s fx
+  | .openBtree => openBtreeF s fx
+  | .store k => storeOpF s k fx
+
+/-- state of a run with failures: the lifecycle state plus "what is on disk is no longer predicted" -/
+structure FSt where
+  st : St
+  blur : Bool
+
+def initF (m : Mode) (i : Init) : FSt := ⟨init m i, false⟩
+
+/-- one call with a failure pattern. The write calls are `none` (not predicted) when a failure took effect. -/
+def stepF (s : FSt) (op : Op) (fx : Fx) : FSt × Res × Option (List W) :=
+  let r := stepCoreF s.st op fx
+  -- a dropped error still changes what the work around it does (e.g. the cleanup after the flip stops early)
+  let hit := r.hit || (fx.quiet && s.st.hasBegun)
+  (⟨{ r.st with writes := r.st.writes + r.w.length }, s.blur || hit⟩, r.res, if hit then none else some r.w)
+
+def runF (s : FSt) : List (Op × Fx) → FSt
+  | [] => s
+  | c :: cs => runF (stepF s c.1 c.2).1 cs
+
+structure EvF where
+  pre : FSt
+  op : Op
+  fx : Fx
+  res : Res
+  w : Option (List W)
+  post : FSt
+
+def traceF (s : FSt) : List (Op × Fx) → List EvF
+  | [] => []
+  | c :: cs =>
+    let r := stepF s c.1 c.2
+    { pre := s, op := c.1, fx := c.2, res := r.2.1, w := r.2.2, post := r.1 } :: traceF r.1 cs
 
 end Sop.Lifecycle
